@@ -172,6 +172,13 @@ def run(ctx: Ctx):
     LOOSE = "from inline_snapshot import snapshot\n\n\ndef test_a( ):\n    x = [1,2,\n      3]\n    assert x   ==   snapshot([1,2])\n    assert {'a':1} == snapshot({'a':2})\n"
     for fl in (("fix",), ("create", "fix", "trim", "update")):
         progs.append({"source": LOOSE, "files": {"test_something.py": LOOSE}, "flags": fl, "sites": [1, 2], "rich": False, "prelude": True})
+    # tests whose snapshots depend on the order in which the tests of a file run (shared module state, a snapshot reached through a helper): pytest runs
+    # them in definition order, which is not the alphabetical order here
+    ORDER = ("from inline_snapshot import snapshot\n\nSEEN = []\n\n\ndef record(tag):\n    SEEN.append(tag)\n    assert len(SEEN) <= snapshot()\n    return list(SEEN)\n\n\n"
+             "def test_write():\n    assert record('write') == snapshot()\n\n\ndef test_read():\n    assert record('read') == snapshot(['x'])\n\n\n"
+             "def test_append():\n    assert record('append') == snapshot()\n")
+    for fl in (("create",), ("create", "fix"), ("fix",)):
+        progs.append({"source": ORDER, "files": {"test_something.py": ORDER}, "flags": fl, "sites": [1, 2, 3], "rich": False})
     outs = pmap(run_all, progs, procs=12, chunksize=1)
     terms = []
     for p, o in zip(progs, outs):
